@@ -138,12 +138,36 @@ func (ex *Exec) storeLV(st State, lv *LV, v Term) {
 // viewOf: the current data term of a value, re-reading the origin for live views.
 func (ex *Exec) viewOf(st State, v Val) Term {
 	if v.Origin != nil {
-		if v.Origin.Epoch != v.Origin.Cell.Epoch {
-			ex.fail("use of a map/slice view of %s after the location was re-assigned", v.Origin)
+		for _, ra := range v.Origin.Cell.Reassigns {
+			if ra.seq > v.Origin.Epoch && pathMayBePrefix(ra.path, v.Origin.Path) {
+				ex.fail("use of a map/slice view of %s after the location (or a container of it) was re-assigned", v.Origin)
+			}
 		}
 		return ex.loadLV(st, v.Origin)
 	}
 	return v.T
+}
+
+// pathMayBePrefix: could location p be v itself or a container of v? (indices that differ syntactically may be equal)
+func pathMayBePrefix(p, v []PathElem) bool {
+	if len(p) > len(v) {
+		return false
+	}
+	for i := range p {
+		if p[i].Kind != v[i].Kind {
+			return false
+		}
+		if p[i].Kind == 'f' && p[i].Field != v[i].Field {
+			return false
+		}
+	}
+	return true
+}
+
+// noteReassign records that a whole map/slice value was stored at lv.
+func (ex *Exec) noteReassign(lv *LV) {
+	ex.seq++
+	lv.Cell.Reassigns = append(lv.Cell.Reassigns, reassign{path: append([]PathElem(nil), lv.Path...), seq: ex.seq})
 }
 
 // toData converts any value to a data term (static pointers are boxed with the current pointee value).
@@ -255,6 +279,14 @@ func (f *Frame) execBlock(n *Node, ns nodeState, skipPhis bool) {
 }
 
 func (f *Frame) bind(ns *nodeState, v ssa.Value, val Val) {
+	shared := val.Shared
+	defer func() {
+		if shared {
+			r := ns.env[v]
+			r.Shared = true
+			ns.env[v] = r
+		}
+	}()
 	if !val.IsPtr && val.Fn == nil && val.Builtin == "" && len(val.Tup) == 0 && val.Iter == nil && val.T.Sort != nil {
 		val.T = f.ex.vc.Define(f.prefix+v.Name(), val.T)
 	}
@@ -402,7 +434,7 @@ func (f *Frame) execInstr(ns *nodeState, ins ssa.Instruction) {
 		vc.Assume(Implies(has, leT(IntLit64(1, SInt), FieldOf(m, 2))), "a key is present: map not empty")
 		rv := Val{T: val}
 		if v.Origin != nil && isRefType(mt.Elem()) {
-			rv.Origin = v.Origin.extend(PathElem{Kind: 'm', Idx: k})
+			rv.Origin = v.Origin.extend(PathElem{Kind: 'm', Idx: k}).at(ex.seq)
 		}
 		if x.CommaOk {
 			ns.env[x] = Val{Tup: []Val{rv, {T: vc.Define(f.prefix+x.Name()+"_ok", has)}}}
@@ -419,12 +451,11 @@ func (f *Frame) execInstr(ns *nodeState, ins ssa.Instruction) {
 		v := ex.toData(ns.st, f.operand(ns.env, x.Value), mt.Elem())
 		m := ex.viewOf(ns.st, mv)
 		f.safety(ns, "nilmap", Not(FieldOf(m, 3)), "assignment to entry in nil map", x.Pos())
+		target := mv.Origin.extend(PathElem{Kind: 'm', Idx: k})
 		if isRefType(mt.Elem()) {
-			mv.Origin.Cell.Epoch++
-			mv.Origin.Epoch = mv.Origin.Cell.Epoch // the map view itself stays valid
-			f.revalidate(ns, mv.Origin.Cell)
+			ex.noteReassign(target)
 		}
-		ex.storeLV(ns.st, mv.Origin.extend(PathElem{Kind: 'm', Idx: k}), v)
+		ex.storeLV(ns.st, target, v)
 	case *ssa.MakeMap:
 		mt := x.Type().Underlying().(*types.Map)
 		s := vc.SortOf(mt)
@@ -448,8 +479,7 @@ func (f *Frame) execInstr(ns *nodeState, ins ssa.Instruction) {
 		lv := f.derefPtr(ns, addr, et, "store", x.Pos())
 		v := f.operand(ns.env, x.Val)
 		if isRefType(et) {
-			lv.Cell.Epoch++
-			f.revalidate(ns, lv.Cell)
+			ex.noteReassign(lv)
 		}
 		ex.storeLV(ns.st, lv, ex.toData(ns.st, v, et))
 	case *ssa.Range:
@@ -642,7 +672,10 @@ func (f *Frame) sliceOp(ns *nodeState, x *ssa.Slice) {
 			vc.Assume(Term{S: fmt.Sprintf("(forall ((q_j Int)) %s)", ax.S), Sort: SBool}, "re-slicing: contents of the result")
 			r = MkData(s.Sort, na, subT(hi, lo), slNil(s))
 		}
-		f.bind(ns, x, Val{T: r})
+		// alias discipline: the result shares its backing array with the operand; appending to it (or storing
+		// through it) could overwrite elements that other live slices still see, which the value semantics of
+		// slices used here would not notice. Such writes are rejected (see call.go append).
+		f.bind(ns, x, Val{T: r, Shared: true})
 	case *types.Pointer:
 		at := u.Elem().Underlying().(*types.Array)
 		lv := f.derefPtr(ns, v, u.Elem(), "slice of array", x.Pos())
@@ -687,7 +720,7 @@ func (f *Frame) unop(ns *nodeState, x *ssa.UnOp) {
 		}
 		rv := Val{T: ex.vc.Define(f.prefix+x.Name(), t)}
 		if isRefType(et) && !lv.Cell.ReadOnly {
-			rv.Origin = &LV{Cell: lv.Cell, Path: lv.Path, Epoch: lv.Cell.Epoch}
+			rv.Origin = &LV{Cell: lv.Cell, Path: lv.Path, Epoch: ex.seq}
 		}
 		if len(lv.Path) > 0 {
 			last := lv.Path[len(lv.Path)-1]
